@@ -486,6 +486,13 @@ def stream_rules(facts, rep, E):
                             want = 0
                     if err is True and writes:
                         viol = "cursor moves on an error path"
+                    moves = list(writes) + [e for e in p.events if e["k"] == "call" and e["callee"] and e["callee"].startswith(prefix) and
+                                            e["callee"].rsplit("::", 1)[-1] in ("skip", "seek") and not (len(e["args"]) > 1 and e["args"][1][:2] == ("const", 0))]
+                    tested = any(any(x == delegated["val"] for x in walk(term_)) and (term_[0] == "discr" or (term_[0] == "call" and term_[1].rsplit("::", 1)[-1] in ("is_ok", "is_err", "is_some", "is_none")))
+                                 for (bb_, term_, vals_, neg_, dty_) in p.conds)
+                    if err is None and moves and p.ret is not None and any(x == delegated["val"] for x in walk(p.ret)) and not tested:
+                        # the delegate's result is returned as it is, untested: the same path serves Ok and Err
+                        viol = "cursor moves before the result of %s is known: a failed access still advances it" % delegated["callee"].rsplit("::", 1)[-1]
                     if err is False:
                         inc = 0
                         for w in writes:
